@@ -128,6 +128,10 @@ Example C55_witness :
   truncate_md 10 [(bytes_of "a", 1, 65); (k_trace, 5, 84); (bytes_of "abcdef", 2, 66)]
     = ([(bytes_of "a", 1, 65); (k_trace, 5, 84); (bytes_of "abcdef", 2, 66)], false) /\
   truncate_msg 3 5 = (3, true) /\ truncate_msg 5 5 = (5, false) /\
+  map key_omit (map bytes_of ["grpc-tags-bin"; "grpc-status-details-bin"; "grpc-bin"; "grpc-trace-bin"; "user-key-bin"]%string)
+    = [true; true; true; false; false] /\
+  map prop_omit (map bytes_of ["grpc-tags-bin"; "grpc-status-details-bin"; "grpc-bin"; "grpc-trace-bin"; "user-key-bin"]%string)
+    = [true; true; true; false; false] /\
   md_to_proto [(bytes_of "grpc-status", [(1, 48)]); (bytes_of "a", [(1, 65); (2, 66)]); (k_trace, [(1, 84)])]
     = [(bytes_of "a", 1, 65); (bytes_of "a", 2, 66); (k_trace, 1, 84)] /\
   forallb op_wf [[1; 0; 9; 3; 16; 1; 65; 0; 5; 84; 17; 2; 66]; [2; 0; 3; 5];
